@@ -23,8 +23,11 @@ func writeEvidence(p *PropCfg, tier string, seed int, runs []harnessRun, validat
 	knownHit := map[string]int{}
 	exhaustive := true
 	var steps int64
+	domDecided, domAudited := 0, 0
 	for _, r := range runs {
 		rep := r.rep
+		domDecided += rep.DomainDecided
+		domAudited += rep.DomainAudited
 		states += rep.Paths
 		transitions += rep.Decisions
 		steps += rep.Steps
@@ -74,7 +77,7 @@ func writeEvidence(p *PropCfg, tier string, seed int, runs []harnessRun, validat
 			"decisions": rep.Decisions, "max_decision_depth": rep.MaxDepth, "instructions": rep.Steps,
 			"assertions_discharged_unsat": rep.Discharged, "assertions_trivially_true": rep.Trivial,
 			"infeasible_alternatives_pruned": rep.Infeasible,
-			"complete": rep.Complete, "params": tc.Params, "bounds": r.cfg.Bounds, "subject": r.cfg.Subject,
+			"complete":                       rep.Complete, "params": tc.Params, "bounds": r.cfg.Bounds, "subject": r.cfg.Subject,
 			"solver_s": rep.SolverTime.Seconds(), "wall_s": rep.Wall.Seconds(),
 		})
 	}
@@ -101,22 +104,24 @@ func writeEvidence(p *PropCfg, tier string, seed int, runs []harnessRun, validat
 		"exhaustive":                    exhaustive && len(inconclusive) == 0,
 		"explanation": "states = feasible execution paths of the harness explored to completion by the symbolic SSA interpreter (each covers every input satisfying its path condition); transitions = decisions taken (symbolic branches, concretisations, Choose); " +
 			"every Assert on every path is an SMT query PC∧¬A (unsat = holds for all inputs of that path); traces_validated = sampled paths whose solver model was replayed against the native build with identical observations",
-		"functions_encoded":            map[string]interface{}{"repo": keys(fnRepo, 400), "stdlib_and_deps_count": len(fnStd), "stdlib_and_deps_sample": keys(fnStd, 60)},
-		"harnesses":                    perHarness,
-		"queries":                      queries,
-		"assertion_obligations":        map[string]int{"discharged_unsat": discharged, "trivially_true_on_path": trivial, "unknown": unknownQ},
-		"infeasible_alternatives":      infeasible,
-		"instructions_interpreted":     steps,
-		"solver_s":                     solverS,
-		"load_and_ssa_build_s":         loadS,
-		"reach_labels":                 reach,
-		"known_findings_hit":           knownHit,
-		"known_finding_lines":          knownLines,
-		"inconclusive":                 inconclusive,
-		"confirmed_violations":         confirmed,
-		"outside_claim":                p.Outside,
-		"solver":                       "z3 (one long-lived `z3 -in` per worker; any (error line or unknown = inconclusive)",
-		"encoding_regenerated_from":    "/repo working tree via go/packages + go/ssa on this run",
+		"functions_encoded":                      map[string]interface{}{"repo": keys(fnRepo, 400), "stdlib_and_deps_count": len(fnStd), "stdlib_and_deps_sample": keys(fnStd, 60)},
+		"harnesses":                              perHarness,
+		"queries":                                queries,
+		"assertion_obligations":                  map[string]int{"discharged_unsat": discharged, "trivially_true_on_path": trivial, "unknown": unknownQ},
+		"infeasible_alternatives":                infeasible,
+		"decisions_by_byte_domain_propagation":   domDecided,
+		"byte_domain_verdicts_audited_by_solver": domAudited,
+		"instructions_interpreted":               steps,
+		"solver_s":                               solverS,
+		"load_and_ssa_build_s":                   loadS,
+		"reach_labels":                           reach,
+		"known_findings_hit":                     knownHit,
+		"known_finding_lines":                    knownLines,
+		"inconclusive":                           inconclusive,
+		"confirmed_violations":                   confirmed,
+		"outside_claim":                          p.Outside,
+		"solver":                                 "z3 (one long-lived `z3 -in` per worker; any (error line or unknown = inconclusive)",
+		"encoding_regenerated_from":              "/repo working tree via go/packages + go/ssa on this run",
 	}
 	ev := map[string]interface{}{
 		"property_id": p.ID,
